@@ -1139,6 +1139,20 @@ expand_manifests(string &expr, bool expand_undefined,
       }
       p++;
     }
+    else if (isdigit(expr[p])) {
+      // A number.  Skip it whole, so that the letters of a hex or binary
+      // prefix, an exponent or a suffix (0x10, 0b11, 1e5, 1L, 10u) are not
+      // mistaken for an identifier to be expanded.
+      p++;
+      while (p < expr.size() &&
+             (isalnum(expr[p]) || expr[p] == '_' || expr[p] == '.' ||
+              (expr[p] == '\'' && p + 1 < expr.size() && isalnum(expr[p + 1])) ||
+              ((expr[p] == '+' || expr[p] == '-') &&
+               (expr[p - 1] == 'e' || expr[p - 1] == 'E' ||
+                expr[p - 1] == 'p' || expr[p - 1] == 'P')))) {
+        p++;
+      }
+    }
     else {
       p++;
     }
